@@ -132,6 +132,25 @@ def gen_config(rng, tier, flavor="db"):
             cfg["p_recomb"] = cfg["p_partial"] = cfg["p_dosage"] = 1.0
             cfg["n_intervals"] = rng.choice([None, 2, 2, 3, 3])
         n_pos = len(cfg["n_alleles"])
+    if flavor in ("db", "cache") and rng.random() < 0.012:
+        # a read whose probability under every haplotype is SUB-NORMAL (1e-310: between the smallest double and the
+        # smallest normal one), everything else ordinary.  The unchanged tree treats such a value like any other; a guard
+        # or clip in one of the two likelihood functions (seeded change C09-e1) makes them disagree here, without ever
+        # entering the -inf / NaN regime of observation O9
+        cfg["ploidy"] = rng.choice([2, 3, 4])
+        cfg["n_alleles"] = [2] * 36
+        cfg["read_style"] = "denormal_outlier"
+        cfg["initial"] = "truth_rows"
+        cfg["n_reads"] = 5
+        cfg["counts"] = "deep_body"
+        cfg["steps"] = 3
+        cfg["chains"] = 1
+        cfg["temperatures"] = cfg["temperatures"][-2:]
+        cfg["p_recomb"] = cfg["p_partial"] = cfg["p_dosage"] = 1.0
+        cfg["n_intervals"] = rng.choice([None, 2, 3])
+        cfg["long_locus"] = True
+        cfg["refit"] = False
+        n_pos = 36
     if cfg["n_intervals"] is not None:
         cfg["n_intervals"] = max(1, min(cfg["n_intervals"], n_pos))
     if cfg["entry"] == "direct" and cfg["n_reads"] == 0:
@@ -146,6 +165,11 @@ def long_truths(cfg):
     n = len(n_alleles)
     a = [rng.randrange(x) for x in n_alleles]
     b = list(a)
+    if cfg["read_style"] == "denormal_outlier":
+        # the truths agree on the first n - 5 ("deep") sites and differ at three of the last five; no uninformative sites
+        for j in rng.sample(list(range(n - 5, n)), 3):
+            b[j] = (b[j] + 1) % n_alleles[j]
+        return a, b, []
     head = cfg["read_style"] == "two_truths_gap_head"
     gaps = list(range(3)) if head else list(range(n - 3, n))
     region = range(n - 8, n) if head else range(0, 8)
@@ -163,6 +187,21 @@ def gen_reads(cfg):
     amax = max(n_alleles)
     n_reads = cfg["n_reads"]
     reads = np.zeros((n_reads, n_pos, amax), dtype=np.float64)
+    if cfg.get("read_style", "plain") == "denormal_outlier" and n_pos >= 12:
+        a, b, _ = long_truths(cfg)
+        for r in range(n_reads - 1):
+            hap = a if r % 2 == 0 else b
+            for j in range(n_pos):
+                reads[r, j, :2] = 0.01
+                reads[r, j, hap[j]] = 0.99
+        # the outlier: covers the 31 deep sites only and contradicts the (common) truth there with 1e-10 each -> 1e-310
+        r = n_reads - 1
+        reads[r, :, :] = np.nan
+        for j in range(31):
+            reads[r, j, :2] = 1.0 - 1e-10
+            reads[r, j, a[j]] = 1e-10
+        counts = np.array([40] * (n_reads - 1) + [1], dtype=np.int64)
+        return reads, counts
     if cfg.get("read_style", "plain") != "plain" and n_pos >= 12:
         a, b, gaps = long_truths(cfg)
         for r in range(n_reads):
